@@ -235,7 +235,26 @@ class Run:
         ctx = {'step': step, 'pre': pre, 'post': post, 'prev': prev,
                'real': real}
         if crash_at is not None or inj is not None:
-            self.check_faulted(i, ctx, fault)
+            if inj is not None:
+                step = dict(step, tags=list(step.get('tags', [])) + ['C14'])
+                ctx['step'] = step
+            if self.check_faulted(i, ctx, fault):
+                return
+            # the injected error did not propagate out of build(): user code
+            # caught it (or best-effort library code absorbed it).  The build
+            # must be consistent with the API call(s) that surfaced it having
+            # failed in setup.
+            hints = {}
+            for key, cls in real.it.injected_calls:
+                hints[('setup_fail', key)] = {'cls': cls}
+            model = self.model_build(step, pre, prev, hints=hints)
+            ctx['model'] = model
+            self.compare_build(i, ctx)
+            if model.kind == 'ok':
+                self.stats['commits'] += 1
+                T, rec = commit(model.mb)
+                n = post.get(sb.cache)
+                self.records[bdigest(n[1], 20)] = rec
             return
         # ---- reference model
         model = self.model_build(step, pre, prev)
@@ -395,15 +414,8 @@ class Run:
         allowed_extra = set()
         if not committed and prev is not None:
             # latitude stated in C02: directories the previous committed
-            # build recorded as created may reappear empty - together with
-            # the parents needed to hold them
+            # build recorded as created may reappear empty
             allowed_extra = set(prev.created_dirs)
-            for d in list(allowed_extra):
-                if d in post:
-                    q = os.path.dirname(d)
-                    while q.startswith(sb.w + '/'):
-                        allowed_extra.add(q)
-                        q = os.path.dirname(q)
         V = lambda props, key, detail: Violation(  # noqa: E731
             self.props_ctx(ctx, props), 'O-tree', key, detail, i)
         # foreign files first (C03): bytes, mtime, inode unchanged
@@ -476,36 +488,111 @@ class Run:
         else:
             fired = real.fault_fired is not None
         if not fired:
-            ctx['fault_not_fired'] = True
-            # nothing was injected (index beyond the run): ordinary build
-            model = self.model_build(ctx['step'], ctx['pre'], ctx['prev'])
-            ctx['model'] = model
-            self.compare_build(i, ctx)
-            if model.kind == 'ok':
-                T, rec = commit(model.mb)
-                n = ctx['post'].get(sb.cache)
-                self.records[bdigest(n[1], 20)] = rec
-            return
+            self.fault_not_fired = True
+            return False
         key = fault['kind'] if fault['kind'] == 'crash' else (
             '%s:%s' % (real.fault_fired['call'], real.fault_fired['errno']))
         self.stats['faults'][key] = self.stats['faults'].get(key, 0) + 1
         if real.kind != 'exc':
             if fault['kind'] == 'crash':
                 raise V('crash-swallowed', {'at': fault['at']})
-            # an injected OSError may legitimately be absorbed (best-effort
-            # removal, caught by the program); handled by the caller
-            ctx['fault_absorbed'] = True
-            return
+            self.probe('fault-absorbed')
+            return False
         if fault['kind'] == 'crash' and real.exc_obj is not real.it.crashed:
             raise V('exception-identity',
                     {'got': real.exc, 'tb': getattr(real, 'tb', None)})
-        if fault['kind'] != 'crash' and not getattr(
-                real.exc_obj, '_fbsim_injected', False):
-            ctx['fault_transformed'] = real.exc
+        if fault['kind'] != 'crash':
+            if not _chain_injected(real.exc_obj):
+                # build() failed, but with an exception unrelated to the
+                # injected error: the program caught the injected one and
+                # something else failed later
+                self.probe('fault-caught-then-other-failure')
+                return False
+            if not getattr(real.exc_obj, '_fbsim_injected', False):
+                self.probe('fault-transformed:' + real.exc)
         self.stats['rollbacks'] += 1
         self.compare_tree(ctx, i, Tree(ctx['pre'], sb.base), committed=False)
         if sb.tmp_entries():
             raise V('temp-leak', {'entries': sb.tmp_entries()})
+        return True
+
+    # ------------------------------------------------------------------
+    def fault_mode(self):
+        """Scenario mode 'fault': steps before ``fault_step`` run normally;
+        then, from that state, (1) a baseline continuation without fault and
+        (2) for each fault of the plan: restore, faulted build, rollback
+        oracle, and the twin check - the same continuation must behave
+        exactly like the baseline."""
+        sc = self.sc
+        steps = sc['steps']
+        i = sc['fault_step']
+        follow = sc.get('follow', 1)
+        self.run_steps(steps[:i])
+        s0 = self.save_state()
+        rec0 = dict(self.records)
+        cont = [steps[i]] + steps[i + 1:i + 1 + follow]
+        base = self.play(i, cont)
+        first = self.first_outcome
+        plan = sc.get('fault')
+        if plan is None:
+            kind = sc['sweep']
+            n = first.n_opp if kind == 'crash' else first.n_mut
+            cap = sc.get('sweep_max')
+            ks = list(range(n))
+            if cap is not None and n > cap:
+                # deterministic sub-sample that keeps both ends
+                stride = n / float(cap)
+                ks = sorted(set(int(j * stride) for j in range(cap)) |
+                            {n - 1})
+            if kind == 'crash':
+                plan = [{'kind': 'crash', 'at': k} for k in ks]
+            else:
+                errnos = sc.get('errnos', ['ENOSPC'])
+                rot = sc.get('seed', 0)
+                plan = [{'kind': 'oserror', 'index': k,
+                         'errno': errnos[(k + rot) % len(errnos)]}
+                        for k in ks]
+                if sc.get('torn'):
+                    plan.append({'kind': 'torn', 'frac': 0.5})
+                    plan.append({'kind': 'torn', 'frac': 0.0})
+        elif isinstance(plan, dict):
+            plan = [plan]
+        self.fault_runs = 0
+        for f in plan:
+            self.load_state(s0)
+            self.records = dict(rec0)
+            self.current_fault = f
+            self.fault_not_fired = False
+            self.fault_runs += 1
+            self.step(i, dict(steps[i], fault=f))
+            if self.fault_not_fired:
+                continue
+            out = self.last_outcome
+            if out.kind == 'exc' and (
+                    f['kind'] == 'crash' or _chain_injected(out.exc_obj)):
+                # rolled back: the twin continuation must match the baseline
+                # (same simulated time as the baseline continuation)
+                self.sb.clock.now = s0['clock']
+                twin = self.play(i, cont)
+                if twin != base:
+                    raise Violation(
+                        ['C02' if f['kind'] == 'crash' else 'C14'],
+                        'O-twin', 'twin-differs',
+                        {'fault': f, 'baseline': base, 'twin': twin}, i)
+        self.current_fault = None
+
+    def play(self, i, cont):
+        sigs = []
+        self.first_outcome = None
+        for j, st in enumerate(cont):
+            self.step(i + j, st)
+            if st['op'] in ('build', 'clean'):
+                o = self.last_outcome
+                if self.first_outcome is None:
+                    self.first_outcome = o
+                sigs.append([o.kind, o.exc, digest(o.value),
+                             list(o.order), o.tree_sig])
+        return sigs
 
     # ------------------------------------------------------------------
     def clean_step(self, i, step):
@@ -582,22 +669,43 @@ class Run:
                 raise V(['C12'], 'clean-type', {'path': sb.rel(p)})
 
 
+def _chain_injected(e):
+    seen = 0
+    while e is not None and seen < 10:
+        if getattr(e, '_fbsim_injected', False):
+            return True
+        e = e.__cause__ or e.__context__
+        seen += 1
+    return False
+
+
 def run_scenario(sc, opts=None):
     """Returns dict(verdict=ok|violation|invalid|error, ...)."""
     run = None
     try:
         run = Run(sc, opts)
         try:
-            run.run_steps(sc['steps'])
+            if sc.get('mode') == 'fault':
+                run.current_fault = None
+                try:
+                    run.fault_mode()
+                finally:
+                    fault_used = run.current_fault
+            else:
+                fault_used = None
+                run.run_steps(sc['steps'])
             res = {'verdict': 'ok'}
         except Violation as v:
             res = {'verdict': 'violation', 'violation': v.to_json()}
+            if sc.get('mode') == 'fault':
+                res['fault'] = run.current_fault
         except Invalid as e:
             res = {'verdict': 'invalid', 'why': str(e)}
         run.stats['clock_span_s'] = (
             run.sb.clock.hi - run.sb.clock.lo) // 1000000000
         res['log_digest'] = digest(run.log, 16)
         res['log'] = run.log
+        res['runs'] = 1 + getattr(run, 'fault_runs', 0)
         res['stats'] = run.stats
         return res
     except Exception:
